@@ -140,6 +140,19 @@ class AmfFamily(Family):
                     ops.append(f"!amf.marker {m} {t}")
                 bump(stats, "marker_cases")
                 yield ops
+            # a name that occurs more than once in one object denotes its LAST value (wire order kept by the independent encoder)
+            N1, N2, N3 = ("n", 0x3FF0000000000000), ("n", 0x4000000000000000), ("n", 0x4008000000000000)
+            dups = [[("o", [(b"a", N1), (b"b", ("s", b"x")), (b"a", N2)])],
+                    [("o", [(b"a", ("z",)), (b"a", ("u",))])],
+                    [("o", [(b"a", ("u",)), (b"a", ("z",)), (b"a", ("b", True))])],
+                    [("o", [(b"k", ("o", [(b"x", N1), (b"x", N2), (b"x", N3)])), (b"k", ("s", b"last"))]), N3],
+                    [("a", [("o", [(b"a", N1), (b"a", ("a", [N3]))])]), ("s", b"after")],
+                    [("s", b"cmd"), N1, ("o", [(b"app", ("s", b"first")), (b"tcUrl", ("s", b"u")), (b"app", ("s", b"second"))])],
+                    [("o", [(b"a", N1), (b"b", N2), (b"b", N3), (b"a", ("o", [(b"a", N1), (b"a", N2)]))])]]
+            for vs in dups:
+                t = GA.texts(vs)
+                bump(stats, "repeated_name_cases")
+                yield [f"!amf.dupnames {t}"]
             # ... and wherever else a type marker is expected: after complete values, inside open containers
             prefixes = ["05", "0000000000000000" + "00", "02000161", "0502000161" + "0100", "0300016105000009",
                         "03000161", "0a00000002", "0a0000000205", "080000000100016b", "0300016103000162", "05" + "0a00000001",
